@@ -169,3 +169,26 @@ M('c20-default-options-without-allow', 'C20', 'R4', 'falcon/responders.py',
 
         return options_responder_async
 """, also=('C02',))
+
+# ---- R3/R4: the preflight branch is entered for EVERY successful OPTIONS carrying Access-Control-Request-Method (wave 6, s6-c20-2)
+_ACRM_OLD = "            and req.get_header('Access-Control-Request-Method')\n"
+# the seed: "validation" of the client's token against the method table; PURGE / patch skip both approve and withdraw
+M2('c20-preflight-only-for-known-request-method', 'C20', 'R3', [
+    {'file': MW, 'old': "from .request import Request\n", 'new': "from .constants import COMBINED_METHODS\nfrom .request import Request\n"},
+    {'file': MW, 'old': _ACRM_OLD, 'new': "            and req.get_header('Access-Control-Request-Method') in COMBINED_METHODS\n"},
+])
+M('c20-preflight-only-for-listed-request-method', 'C20', 'R3', MW, _ACRM_OLD,
+  "            and req.get_header('Access-Control-Request-Method') in ('GET', 'HEAD', 'POST', 'PUT', 'DELETE', 'PATCH')\n")
+M('c20-preflight-only-for-one-request-method', 'C20', 'R4', MW, _ACRM_OLD,
+  "            and req.get_header('Access-Control-Request-Method') == 'GET'\n")
+# the approve half alone: a preflight for an unlisted method that finds an Allow set is neither approved nor has Allow removed
+M2('c20-preflight-skips-unlisted-method-after-withdraw-test', 'C20', 'R4', [
+    {'file': MW, 'old': "from .request import Request\n", 'new': "from .constants import COMBINED_METHODS\nfrom .request import Request\n"},
+    {'file': MW, 'old': """            allow = resp.get_header('Allow')
+            resp.delete_header('Allow')
+""", 'new': """            allow = resp.get_header('Allow')
+            resp.delete_header('Allow')
+            if allow and req.get_header('Access-Control-Request-Method') not in COMBINED_METHODS:
+                return
+"""},
+])
